@@ -116,7 +116,9 @@ class ExternalOperator(BaseFormOperator):
             return True
         return (
             type(self) is type(other)
+            and len(self.ufl_operands) == len(other.ufl_operands)
             and all(a == b for a, b in zip(self.ufl_operands, other.ufl_operands))
+            and len(self._argument_slots) == len(other._argument_slots)
             and all(a == b for a, b in zip(self._argument_slots, other._argument_slots))
             and self.derivatives == other.derivatives
             and self.ufl_function_space() == other.ufl_function_space()
